@@ -8,7 +8,8 @@ Request: {"op":"typenames","recv":null|[FIELD…],"params":[FIELD…]}
   EXPR  = {"k":"ident","name":hex} | {"k":"selector","x":EXPR,"sel":hex} | {"k":"star","x":EXPR}
         | {"k":"basiclit","value":hex} | {"k":"ellipsis","elt":EXPR|null}
         | {"k":"array","len":EXPR|null,"elt":EXPR} | {"k":"func"} | {"k":"interface"}
-        | {"k":"map","key":EXPR,"value":EXPR} | {"k":"chan","value":EXPR} | {"k":"other"}
+        | {"k":"map","key":EXPR,"value":EXPR} | {"k":"chan","value":EXPR} | {"k":"paren","x":EXPR}
+        | {"k":"other"}
 Reply: {"types":[hex…],"ellipsis":bool}.
 Not part of any proof.
 -/
@@ -32,6 +33,7 @@ partial def decExpr (j : Json) : Except String GoExpr := do
   | "interface" => pure .interfaceType
   | "map" => pure (.mapType (← decExpr (← j.getObjVal? "key")) (← decExpr (← j.getObjVal? "value")))
   | "chan" => pure (.chanType (← decExpr (← j.getObjVal? "value")))
+  | "paren" => pure (.paren (← decExpr (← j.getObjVal? "x")))
   | "other" => pure .other
   | k => throw s!"unknown expression kind {k}"
 
